@@ -997,6 +997,19 @@ func replayEnv(t *testing.T, e *hx.Envelope, times int) {
 		}
 		return
 	}
+	if e.Test == "hangup" || e.Test == "hangupenum" {
+		var c HCase
+		if err := json.Unmarshal(e.Case, &c); err != nil {
+			t.Fatalf("bad case: %v", err)
+		}
+		for i := 0; i < times; i++ {
+			if err := executeHangup(e.Test, &c); err != nil {
+				hx.Violation(e.Test, &c, err.Error())
+				t.Fatalf("%v", err)
+			}
+		}
+		return
+	}
 	var c Case
 	if err := json.Unmarshal(e.Case, &c); err != nil {
 		t.Fatalf("bad case: %v", err)
